@@ -115,6 +115,8 @@ def run(ctx):
         v = rnd.choice([1.0, 0.8, 0.5])
         rs = np.random.RandomState(100 + it)
         f = rs.randn(npol, n) + 1j * rs.randn(npol, n)
+        if it % 4 == 3:
+            f = f.real.copy()                            # a field stored with a real dtype (the response of a grating is not Hermitian)
         x = protect(optical_signal(f if npol == 2 else f[0]))
         apo = rnd.choice(["uniform", "rcos", "gaussian", "parabolic", tri, quad])
         kLv, vdn, F_ = rnd.uniform(0.1, 8), 10 ** rnd.uniform(-5, -3), rnd.choice([0, rnd.uniform(-20, 20)])
@@ -139,7 +141,7 @@ def run(ctx):
         n = rnd.choice([256, 255, 512, 777])
         v = rnd.choice([1.0, 0.8, 0.5])
         x = optical_signal(np.random.RandomState(400 + it).randn(n) + 0j)
-        vdn, kLv = 10 ** rnd.uniform(-5, -3), rnd.uniform(0.1, 8)
+        vdn, kLv = 10 ** rnd.uniform(-5, -3) if it % 2 else 10 ** rnd.uniform(-5, -4), rnd.uniform(0.1, 8)
         det = rnd.uniform(-0.2, 0.2) * fs
         lD = C0 / (gv.f0 + det)
         route = it % 3
@@ -153,8 +155,12 @@ def run(ctx):
         g = np.sqrt((kap ** 2 - d ** 2).astype(complex))
         Rcf = (np.sinh(g * Lm) ** 2 / (np.cosh(g * Lm) ** 2 - d ** 2 / kap ** 2)).real
         dev = float(np.max(np.abs(np.abs(H) ** 2 - Rcf))) if H.shape == Rcf.shape and np.all(np.isfinite(H)) else 1.0
-        events.append({"kind": "spectrum", "dev_ppm": int(round(dev * 1e6))})
+        events.append({"kind": "spectrum", "dev_ppm": int(round(dev * 1e6)), "weak": bool(vdn <= 2e-4)})
         meta.append(("spectrum", route))
+        far = np.abs(d) / kap > 10                       # side lobes far from the stop band: small, but they carry a definite energy
+        if H.shape == Rcf.shape and far.sum() >= 8 and float(np.sum(Rcf[far])) > 1e-4:
+            events.append({"kind": "lobes", "ratio_ppm": int(round(float(np.sum(np.abs(H[far]) ** 2) / np.sum(Rcf[far])) * 1e6))})
+            meta.append(("lobes", route))
         ctx.case(("spectrum", route, n % 2, v, kLv > 4), {"uniform grating": {"kL": kLv, "vdneff": vdn, "v": v, "n": n, "max deviation": dev}})
     v = 1.0
     # history independence: same grating and record length under another sampling rate before
